@@ -279,7 +279,39 @@ Definition scale_spec (c : scale_case) : bool :=
   negb (scale_wellposed c)
   || all2 (fun fb fa => close_list (sc_tol c) fb (map (fun x => sc_c c * x) fa)) (sc_frames_b c) (sc_frames_a c).
 
+(* (6) the Readout object an exposure was run with (however its schedule was established: constructor,
+   `times` / `start_time` / `non_destructive` setters, replace, a file, a range string) and the detector's own
+   readout properties during the run: each must carry the requested start, times and mode, and its `steps`
+   must be calculate_steps of them, i.e. diffs start times *)
+Record sched_obs : Type := {
+  so_start : Q;
+  so_times : list Q;
+  so_steps : list Q;
+  so_nd : bool
+}.
+
+Record sched_case : Type := {
+  sh_tol : Q;
+  sh_start : Q;
+  sh_times : list Q;
+  sh_nd : bool;
+  sh_obs : list sched_obs
+}.
+
+Definition sched_obs_ok (c : sched_case) (o : sched_obs) : bool :=
+  close (sh_tol c) (sh_start c) (so_start o)
+  && close_list (sh_tol c) (sh_times c) (so_times o)
+  && close_list (sh_tol c) (diffs (sh_start c) (sh_times c)) (so_steps o)
+  && Bool.eqb (sh_nd c) (so_nd o).
+
+Definition sched_spec (c : sched_case) : bool := forallb (sched_obs_ok c) (sh_obs c).
+
+(* the harness asks only for accepted schedules, and observed at least one object *)
+Definition sched_wellposed (c : sched_case) : bool :=
+  valid_schedule (sh_start c) (sh_times c) && negb (match sh_obs c with [] => true | _ => false end).
+
 Inductive fcase : Type :=
+| CSched (c : sched_case)
 | CInc (c : inc_case)
 | CLin (c : lin_case)
 | CExp (c : exp_case)
@@ -289,6 +321,7 @@ Inductive fcase : Type :=
 (* model (or the harness's own well-posedness) disagrees with what was observed *)
 Definition case_mismatch (c : fcase) : bool :=
   match c with
+  | CSched c => negb (sched_wellposed c)
   | CInc c => negb (inc_wellposed c)
   | CLin c => negb (lin_ok c)
   | CExp c => negb (exp_wellposed c && exp_matches_model c)
@@ -299,6 +332,7 @@ Definition case_mismatch (c : fcase) : bool :=
 (* the observation breaks the specification (the right-hand sides of the C17 theorems) *)
 Definition case_violation (c : fcase) : bool :=
   match c with
+  | CSched c => negb (sched_spec c)
   | CInc c => negb (inc_proportional c)
   | CLin c => negb (lin_ok c)
   | CExp c => negb (exp_spec c)
